@@ -33,6 +33,8 @@ type Job struct {
 	regexUsed     map[string]*RegexInfo
 	concatParts   map[int][]*Term
 
+	Domains       []finiteDomain
+
 	// results
 	Obls       []*Obligation
 	Facts      []*Term
@@ -217,4 +219,18 @@ func (j *Job) summary() string {
 		}
 	}
 	return fmt.Sprintf("%s: %d/%d", j.Name, ok, n)
+}
+
+type finiteDomain struct {
+	t    *Term
+	vals []int64
+}
+
+func (j *Job) addDomain(t *Term, vals []int64) {
+	for _, d := range j.Domains {
+		if d.t == t {
+			return
+		}
+	}
+	j.Domains = append(j.Domains, finiteDomain{t, vals})
 }
